@@ -229,7 +229,31 @@ def mis_check(ctx, c, outs):
     return None
 
 
+def rotgroup_check(ctx, c, outs):
+    """the hypothesis `IsRotGroup` of the theorems, for the live symmetry list: unit quaternions, closed under product and
+    conjugation as rotations (same properness flag, quaternion up to sign), contains the identity"""
+    G = groups()[c["k1"]]
+    d, i = gdata(G)
+    if np.abs(np.linalg.norm(d, axis=1) - 1).max() > 1e-12:
+        return f"{G.name}: symmetry operations are not unit quaternions"
+
+    def member(q, flag):
+        m = np.minimum(np.abs(d - q).max(axis=1), np.abs(d + q).max(axis=1)) <= 1e-9
+        return bool((m & (i == flag)).any())
+    if not member(np.array([1.0, 0, 0, 0]), False):
+        return f"{G.name}: identity missing"
+    for a in range(len(d)):
+        if not member(d[a] * np.array([1, -1, -1, -1.0]), i[a]):
+            return f"{G.name}: inverse of operation {a} missing"
+        P = hmul(d[a][None, :], d)
+        for b in range(len(d)):
+            if not member(P[b], bool(i[a] ^ i[b])):
+                return f"{G.name}: product of operations {a} and {b} is not an operation (as a rotation with parity flag)"
+    return None
+
+
 SITES = {
+    "is_rot_group": sites.Site("is_rot_group", "prop", rotgroup_check),
     "dot_model": sites.Site("dot_model", "corr", dot_check, dot_lines),
     "pairwise": sites.Site("pairwise", "prop", pair_check),
     "outer": sites.Site("outer", "prop", outer_check),
@@ -260,6 +284,9 @@ def generate(ctx):
     gs = groups()
     nG = len(gs)
     reps = 2 if ctx.tier == "quick" else 12
+    for k in range(nG):
+        ctx.count("is_rot_group", ("g", k), nontrivial=gs[k].size > 1)
+        yield "is_rot_group", {"k1": k}
     # every group alone
     for k in range(nG):
         for r in range(reps):
